@@ -25,10 +25,12 @@ Print Assumptions C01_main_highest_wins.
 
 (* the drop-ins consulted: the drop-in directories in ascending layer order,
    inside each the names that are strictly longer than and end in the suffix,
-   in the order fs_scandir gives (byte-wise sorted) *)
+   in the order fs_scandir gives (byte-wise sorted); each object records the
+   name read_file was handed (real_name: the path itself when it starts with
+   '/', what realpath makes of it otherwise) *)
 Theorem C01_dropins_consulted : forall t g cb o dirs name sfx dl cm acc evs files evs' g',
   read_dropins t g cb o dirs name sfx dl cm acc evs = (inr files, evs', g') ->
-  map get_path files = map get_path acc ++ dropin_paths t dirs sfx.
+  map get_path files = map get_path acc ++ map (real_name t) (dropin_paths t dirs sfx).
 Proof. exact read_dropins_paths. Qed.
 Print Assumptions C01_dropins_consulted.
 
